@@ -207,13 +207,13 @@ caught by the owning check at the first run. The other three:
 |---|---|---|
 | C09-r8a | key slot classes 640/768 confused: a freed slot of the smaller class with a live record behind it | C09's sweep frees and re-fills a slot of the same class; the key ladder now also runs in part (c) of C09 |
 | C18-r8a | a complete traversal spliced into a history on a table whose highest occupied bucket is 7 mod 8 | revealed a weakness of the harness: the "complete traversal" spliced into engine A's repeated executions stopped at its first step (it was driven through the iterator oracle with an impossible expected count); it is now a plain complete traversal, and C18 catches the change |
-| C15-r8a | an iterator kept open while a statistics call moves the position of the table file | not caught by C15 (on the small tables explored the traversal goes wrong but no file changes); reported by C04 and C12 |
+| C15-r8a | an iterator kept open while a statistics call moves the position of the table file, resumed in the middle of a group of eight buckets | at first only the traversal went wrong on the tables explored (reported by C04 and C12, no file changed); C15 now has a 16-bucket table with keys in buckets 6 and 15 (the bitmap bytes read as a bucket head point far beyond the key file) and a read-only call that runs statistics calls between the steps of an open iterator, and catches it |
 
 C06-r6a (a second lookup of a vu64 map opens the files a second time) is not caught by C06, whose engine uses one handle per
 session; it is a handle-aliasing defect and is reported by C11.
 
-Besides C06-r6a, C11-r7a, C15-r8a and C16-r7b one more change is not caught by the check of the property it was written for, and that check was left as it is: C11-r5a (a chain re-link defect that needs a key file beyond 16 KiB and a three-key chain; C11's engine
+Besides C06-r6a, C11-r7a and C16-r7b one more change is not caught by the check of the property it was written for, and that check was left as it is: C11-r5a (a chain re-link defect that needs a key file beyond 16 KiB and a three-key chain; C11's engine
 explores short call sequences over several maps and handles, not seeded images) is reported by C04, C05, C07, C08 and
-C09 (and by C01 since the three-key seeds were added). All other 265 changes are caught by the owning check.
+C09 (and by C01 since the three-key seeds were added). All other 266 changes are caught by the owning check.
 """)
 print(f"{len(rows)} rows")
